@@ -225,6 +225,10 @@ func c03alphabet(cf c03conf, thorough bool) []c03frame {
 					s := base
 					s.Kind, s.SrcIP, s.ARPOp, s.ARPSMAC, s.SrcMAC = "arp", src, op, m, m
 					add(s, true, "")
+					// relayed / proxied ARP: the Ethernet source is not the sender the ARP body names; the
+					// record must carry the body's sender address
+					s.SrcMAC = [6]byte{2, 0, 0, 0, 0, 0x44}
+					add(s, true, "eth-src!=arp-sender")
 				}
 			}
 		}
